@@ -4,8 +4,9 @@ Case: {"ops": [...]} - a history of submissions and planted leftovers over three
 locations r0..r2 (vlib/gen/cachehist.py), replayed by a plain interpreter loop against pydra and
 against the reference model vlib/ref/cachehist.CacheModel.
 
-  {"op":"submit","task":A|B|C|W|S,"root":i,"ro":[j..],"rerun":b,"prop":b,"worker":"debug"|"cf"}
+  {"op":"submit","task":A|B|C|W|S|N,"root":i,"ro":[j..],"rerun":b,"prop":b,"worker":"debug"|"cf"}
   {"op":"plant","ident":A|B|C|E|W,"root":i,"kind":"empty"|"jobonly"|"zero"}
+N is a workflow with another workflow (W) as one of its nodes and a task (C) next to it.
 
 Observation points: the O_APPEND execution log (one line per body execution), the returned
 outputs, byte-for-byte snapshots of every location other than the cache root, the files of the
@@ -20,7 +21,8 @@ from pathlib import Path
 from vlib import scratchdir
 from vlib.gen import cachehist as gen
 from vlib.harness import HarnessError, exception_signature, short
-from vlib.ref.cachehist import COUNTED, EXPECTED_OUT, IDENTS, POOL, CacheModel
+from vlib.ref.cachehist import (COUNTED, EXPECTED_OUT, IDENTS, POOL, CacheModel, all_idents,
+                                is_wf)
 
 ID = "C11"
 LEVEL = "exploration"
@@ -28,14 +30,18 @@ DESIGN_REF = "5/C11"
 TECHNIQUE = "generated operation histories vs an explicit cache model (stateful model check)"
 RULE = (
     "case = history of 1..8 (thorough: ..10) operations over three cache locations: submit(task in "
-    "{3 counter tasks, 2-node chain workflow sharing node identities with two of them, split task}, "
+    "{3 counter tasks, 2-node chain workflow sharing node identities with two of them, split task, "
+    "outer workflow holding that chain workflow as a node next to a task}, "
     "cache root, ordered subset of the other locations as read-only caches, rerun, propagate_rerun, "
     "worker debug|cf) or plant(identity, location, leftover kind: empty dir | dir with only "
     "_job.pklz | zero-byte _result.pklz). After every submission: per-identity execution counts == "
     "model, outputs correct, every other location byte-identical, executed identities have a "
     "complete result under the cache root. Non-trivial = the history contains a read-only-cache "
     "hit, a rerun of something already cached, or a planted leftover that a later submission "
-    "meets; distinct = the op list."
+    "meets; distinct = the op list. Batches: free histories on the debug worker; free histories "
+    "with process-pool submissions; follow-up scenarios (one thing submitted, then 1..3 further "
+    "submissions of it with drawn rerun/propagate/worker/cache lists, workflows preferred) so that "
+    "reruns of cached workflows through the process-pool worker occur in every few cases."
 )
 ASSUMPTIONS = [
     "cache identities (task._checksum) are taken from pydra (trusted here; C06-C09 check them)",
@@ -56,9 +62,10 @@ def _tasks(log):
 
     sub = dict(
         A=T.Cnt(x=1, log=log), B=T.Cnt(x=2, log=log), C=T.Dbl(x=1, log=log),
-        W=T.Chain(x=1, log=log), S=T.Cnt(log=log).split(x=[1, 7]),
+        W=T.Chain(x=1, log=log), S=T.Cnt(log=log).split(x=[1, 7]), N=T.Outer(x=1, log=log),
     )
-    ident_task = dict(A=sub["A"], B=sub["B"], C=sub["C"], E=T.Cnt(x=7, log=log), W=sub["W"])
+    ident_task = dict(A=sub["A"], B=sub["B"], C=sub["C"], E=T.Cnt(x=7, log=log), W=sub["W"],
+                      N=sub["N"])
     return sub, ident_task
 
 
@@ -235,11 +242,20 @@ def describe(case):
         name, R, ro = op["task"], op["root"], list(op["ro"])
         caches = [R] + ro
         entry = POOL[name]
-        idents = [entry[1]] + (entry[2] if entry[0] == "wf" else [])
+        idents = all_idents(name)
+        nested = entry[0] == "wf" and any(is_wf(n) for n in entry[2])
+        if nested:
+            labels.add("wf_with_wf_node")
         if op["rerun"] and any(m.found(i, caches) is not None for i in idents):
             labels.add("rerun_of_cached")
             if entry[0] == "wf":
-                labels.add("rerun_wf_prop" if op["prop"] else "rerun_wf_noprop")
+                lab = "rerun_wf_prop" if op["prop"] else "rerun_wf_noprop"
+                labels.add(lab)
+                if op["worker"] == "cf":
+                    labels.add(lab + "_cf")
+                if nested:
+                    labels.add(lab.replace("_wf_", "_nested_wf_")
+                               + ("_cf" if op["worker"] == "cf" else ""))
         if any((i, r) in m.incomplete for i in idents for r in caches):
             labels.add("meets_leftover")
             shadow = m.clone(shadow=True)
@@ -275,3 +291,6 @@ def run(sh):
     if sh.index % 4 == 1:
         sh.given(gen.c11_history(max_ops=4 if sh.quick else 6, cf_weight=5), body,
                  3 if sh.quick else 60, tag="cf")
+    # follow-up scenarios: the same thing submitted again with drawn rerun / propagate / worker
+    sh.given(gen.c11_followups(cf_weight=8), body, 2 if sh.quick else 40, tag="followcf")
+    sh.given(gen.c11_followups(cf_weight=0), body, sh.budget(160, 2400), tag="follow")
